@@ -175,7 +175,7 @@ def run_syscall_shard(spec):
             elif not res["ok"]:
                 counts["recoveries_checked"] += 1
                 cases.append(Case.make(f"{hist}/{variant}:{lane}:s{k}", VIOLATED, spec=spec_k, nontrivial=pk != "other", key=key, sample=sample,
-                                       witness={"kind": res["problems"][0][0], "detail": res["problems"][0][1], "all": [p[0] for p in res["problems"]], "history": hist, "variant": variant, "lane": lane, "k": k,
+                                       witness={"kind": res["problems"][0][0], "detail": res["problems"][0][1], "all": [p[0] for p in res["problems"]], "details": [[p[0], p[1][:300]] for p in res["problems"][:12]], "history": hist, "variant": variant, "lane": lane, "k": k,
                                                 "syscall": last[:200], "killed_at": pk, "inflight": res.get("inflight"), "deliver_while_down": deliver, "model_step": res.get("model_step"), "mtime_not_newer": res.get("mtime_not_newer")}))
             else:
                 counts["recoveries_checked"] += 1
@@ -247,7 +247,7 @@ def run_shard(spec):
         elif not res["ok"]:
             counts["recoveries_checked"] += 1
             cases.append(Case.make(f"{hist}/{variant}:k{k}", VIOLATED, spec=spec_k, nontrivial=inside, key=key, sample=sample,
-                                   witness={"kind": res["problems"][0][0], "detail": res["problems"][0][1], "all": [p[0] for p in res["problems"]], "history": hist, "variant": variant, "k": k, "of": n,
+                                   witness={"kind": res["problems"][0][0], "detail": res["problems"][0][1], "all": [p[0] for p in res["problems"]], "details": [[p[0], p[1][:300]] for p in res["problems"][:12]], "history": hist, "variant": variant, "k": k, "of": n,
                                             "point": list(pt[1:]), "inflight": res.get("inflight"), "deliver_while_down": deliver, "model_step": res.get("model_step"), "mtime_not_newer": res.get("mtime_not_newer")}))
         else:
             counts["recoveries_checked"] += 1
@@ -318,6 +318,11 @@ def classify(w):
         # mtime (one-second granularity) was not newer than the stored one, so it did not look at the folder and
         # still lists messages that are gone
         return "C11-same-second-mtime-hides-interrupted-removal"
+    if infl == "rename_inbox" and w.get("deliver_while_down") and kinds == {"acknowledged-flags-lost", "revealed-uid-denotes-other-message"} and w.get("details") and all(
+            "now lateDelivery" in d_[1] for d_ in w["details"] if d_[0] == "revealed-uid-denotes-other-message"):
+        # both mechanisms in one recovery: killed inside RENAME INBOX (flags of moved messages not yet written to the new folder)
+        # and a delivery made while the server was down took over a freed message number
+        return ["C11-kill-inside-rename-inbox-loses-flags-of-moved-messages", "C11-key-reuse-while-down-after-interrupted-removal"]
     if (w.get("kind") == "revealed-uid-denotes-other-message" and w.get("all") and set(w["all"]) == {"revealed-uid-denotes-other-message"} and w.get("deliver_while_down")
             and "now lateDelivery" in (w.get("detail") or "") and (w.get("inflight") or {}).get("kind") in ("expunge", "move", "rename_inbox", "delete", "close")):
         return "C11-key-reuse-while-down-after-interrupted-removal"
